@@ -71,17 +71,53 @@ const SELECTIONS: [&str; 3] = ["all", "explicit-names", "explicit-names-with-one
 const MISSING: &str = "no_such_member.bin";
 
 struct RoundTrip {
+    space: &'static str,
     sets: Vec<FileSet>,
     threads: Vec<Option<u32>>,
+    /// allowed values per axis: selection, skip, listfile, compression, version
+    allowed: [Vec<u64>; 5],
     radices: Vec<u64>,
+    /// explicit selection names every `explicit_step`-th member
+    explicit_step: usize,
+    preserve: Vec<bool>,
 }
 impl RoundTrip {
     fn new(tier: Tier) -> Self {
         let sets = filesets(tier);
         let threads = tier.pick(vec![Some(1), Some(8)], vec![Some(1), Some(2), Some(8), None]);
         // simplest first: selection, skip, listfile, compression, version, file set
-        let radices = vec![3, 2, 2, 4, 4, sets.len() as u64];
-        RoundTrip { sets, threads, radices }
+        let allowed = [vec![0, 1, 2], vec![0, 1], vec![0, 1], vec![0, 1, 2, 3], vec![0, 1, 2, 3]];
+        Self::with("roundtrip", sets, threads, allowed, 2, vec![false, true])
+    }
+    /// file counts around the points where the tool and the library switch extraction strategy
+    /// (batch size 10 / 25 / computed at > 1000 and > 5000 names; batched extraction at > 1000)
+    fn many(tier: Tier) -> Self {
+        let counts: Vec<usize> = tier.pick(vec![1000, 1001, 1030], vec![999, 1000, 1001, 1013, 1030, 2013, 5000, 5001, 5003, 5037]);
+        let sets = counts
+            .iter()
+            .map(|&n| FileSet {
+                name: Box::leak(format!("{n}-small-files").into_boxed_str()),
+                files: (0..n).map(|i| (format!("m{:05}.dat", i), gen::content(gen::TEXTURES[i % gen::TEXTURES.len()], 1 + (i * 7) % 61, 4096, 1000 + i as u64))).collect(),
+            })
+            .collect();
+        let threads = tier.pick(vec![Some(1), None], vec![Some(1), Some(3), None]);
+        let allowed = tier.pick(
+            [vec![0, 1], vec![0], vec![1], vec![0, 1], vec![0, 3]],
+            [vec![0, 1, 2], vec![0, 1], vec![0, 1], vec![0, 1], vec![0, 1, 2, 3]],
+        );
+        Self::with("manyfiles", sets, threads, allowed, 1, tier.pick(vec![false], vec![false, true]))
+    }
+    fn with(space: &'static str, sets: Vec<FileSet>, threads: Vec<Option<u32>>, allowed: [Vec<u64>; 5], explicit_step: usize, preserve: Vec<bool>) -> Self {
+        let mut radices: Vec<u64> = allowed.iter().map(|a| a.len() as u64).collect();
+        radices.push(sets.len() as u64);
+        RoundTrip { space, sets, threads, allowed, radices, explicit_step, preserve }
+    }
+    fn digits(&self, i: u64) -> Vec<u64> {
+        let mut d = gen::mixed_radix(i, &self.radices);
+        for k in 0..5 {
+            d[k] = self.allowed[k][d[k] as usize];
+        }
+        d
     }
 }
 
@@ -111,29 +147,29 @@ impl Space for RoundTrip {
         gen::product(&self.radices)
     }
     fn describe(&self, i: u64) -> Value {
-        let d = gen::mixed_radix(i, &self.radices);
+        let d = self.digits(i);
         let fs = &self.sets[d[5] as usize];
         json!({
-            "space": "roundtrip",
+            "space": self.space,
             "fileset": fs.name,
-            "files": fs.files.iter().map(|(n, b)| format!("{n}:{}", b.len())).collect::<Vec<_>>(),
+            "files": if fs.files.len() > 50 { vec![format!("{} files m00000.dat.. of 1..61 bytes", fs.files.len())] } else { fs.files.iter().map(|(n, b)| format!("{n}:{}", b.len())).collect::<Vec<_>>() },
             "version": VERSIONS[d[4] as usize],
             "compression": COMPRESSIONS[d[3] as usize],
             "with_listfile": d[2] == 1,
             "skip_errors": d[1] == 1,
             "selection": SELECTIONS[d[0] as usize],
-            "inner": format!("threads {:?} x preserve-paths {{off,on}}", self.threads),
+            "inner": format!("threads {:?} x preserve-paths {:?}", self.threads, self.preserve),
         })
     }
     fn case_timeout(&self) -> u64 {
         300
     }
     fn run(&self, i: u64) -> CaseResult {
-        let d = gen::mixed_radix(i, &self.radices);
+        let d = self.digits(i);
         let (sel, skip, lf, comp, ver) = (d[0] as usize, d[1] == 1, d[2] == 1, COMPRESSIONS[d[3] as usize], VERSIONS[d[4] as usize]);
         let fs = &self.sets[d[5] as usize];
         let mut r = CaseResult::new();
-        r.key = format!("rt{i}");
+        r.key = format!("{}{i}", if self.space == "roundtrip" { "rt" } else { "mf" });
         let scratch = Scratch::new(&scratch_tag());
         let rn = Runner::new(&scratch.0, 60);
         let indir = rn.cwd.join("in");
@@ -218,9 +254,13 @@ impl Space for RoundTrip {
             } else {
                 r.count("validate_refused", 1);
             }
-            let o = rn.run(&["mpq".into(), "tree".into(), "a.mpq".into(), "--no-color".into()]);
-            r.count("processes", 1);
-            if o.ok() {
+            // `mpq tree` costs seconds to minutes on a thousand members and only the sector size is compared: small sets only
+            let small = fs.files.len() <= 100;
+            let o = if small { rn.run(&["mpq".into(), "tree".into(), "a.mpq".into(), "--no-color".into()]) } else { o };
+            r.count("processes", small as u64);
+            if !small {
+                r.count("tree_skipped_large_set", 1);
+            } else if o.ok() {
                 let ss = first_line_value(&o.stdout, "sector_size:").unwrap_or("<absent>").to_string();
                 if ss != view.sector_size.to_string() {
                     r.viol("mpq tree: sector size differs from the library's get_info()", format!("printed {ss:?} library {}", view.sector_size));
@@ -231,10 +271,10 @@ impl Space for RoundTrip {
             }
         }
         // ---- extract
-        let explicit: Vec<&(String, Vec<u8>)> = fs.files.iter().step_by(2).collect();
+        let explicit: Vec<&(String, Vec<u8>)> = fs.files.iter().step_by(self.explicit_step).collect();
         let mut oc = String::new();
         for (ti, t) in self.threads.iter().enumerate() {
-            for preserve in [false, true] {
+            for &preserve in &self.preserve {
                 let od = format!("o{ti}{}", preserve as u8);
                 let mut args: Vec<String> = vec!["mpq".into(), "extract".into(), "a.mpq".into(), "-o".into(), od.clone()];
                 let mut expected: Vec<&(String, Vec<u8>)> = vec![];
@@ -306,6 +346,7 @@ impl Space for RoundTrip {
 fn build(name: &str, _arg: &str, tier: Tier) -> Box<dyn Space> {
     match name {
         "roundtrip" => Box::new(RoundTrip::new(tier)),
+        "manyfiles" => Box::new(RoundTrip::many(tier)),
         "subcmd" => Box::new(subcmd::SubCmd::new(tier)),
         _ => panic!("space {name}"),
     }
@@ -377,10 +418,13 @@ fn main() {
     let tier = c.tier;
     c.rule = format!(
         "space roundtrip (clause i): FULL PRODUCT file set ({nsets}: one / three / twelve sizes 1..20000 / with empty file / with 70 KiB file / names with spaces{more_sets}) x create --version {{v1..v4}} x --compression {{none,zlib,bzip2,lzma}} x --with-listfile {{off,on}} x extract selection {{all, explicit names (every other member), explicit names incl. one missing}} x --skip-errors {{off,on}}; inside each case --threads {threads} x --preserve-paths {{off,on}} (one `mpq extract` process each), and for selection=all/skip=off also `mpq list`, `mpq info`, `mpq tree` compared with the library's list()/get_info(). \
+         space manyfiles (clause i): the same round trip on archives of {many} small files (1..61 bytes each), the member counts at which the tool and the library change extraction strategy (batch size 10 / 25 / computed, batched extraction above 1000 names), {many_axes}; explicit selection names every member. \
          space subcmd (clause ii): EVERY (sub-command template x seed of its input family x damage class): {ntpl} templates over mpq/dbc/dbd/blp/m2(+skin,anim)/wmo/adt/wdt/wdl (every sub-command found with --help at every level, convert over all target versions), seeds from each crate's own writer/builder, damage classes {dmg}. \
          Rules applied (and nothing else): R1 nonexistent/empty/garbage/truncated-below-8-bytes input => exit != 0; R2 validate/convert/export/extract/rebuild exit 0 => the library's own parse of the same bytes is Ok; R3 validate exit 0 => the library-level validation it wraps reports no error, and its own output carries no failure marker; R4 exit 0 with an output argument (and no 'No conversion needed'/'Preview mode'/'Dry run' statement) => output exists, is non-empty and the library parser for its format accepts it; R5 mpq extract / rebuild exit 0 (without --skip-errors) => every member the library lists is present and, where the library can read it, bit-identical. \
          A case is non-trivial when the tool was actually started on the prepared input and ended with an exit status; distinct by (template, seed, damage) resp. by the axis tuple.",
         nsets = filesets(tier).len(),
+        many = tier.pick("{1000,1001,1030}", "{999,1000,1001,1013,1030,2013,5000,5001,5003,5037}"),
+        many_axes = tier.pick("x selection {all, explicit} x version {v1,v4} x compression {none,zlib}, listfile on, threads {1,default}", "x selection {all, explicit, explicit+missing} x skip-errors x listfile x version {v1..v4} x compression {none,zlib}, threads {1,3,default} x preserve-paths"),
         more_sets = tier.pick("", " / forty files / sector-boundary sizes + 300 KiB incompressible / case, dots and non-ASCII names / backslash in name"),
         threads = tier.pick("{1,8}", "{1,2,8,default}"),
         ntpl = subcmd::templates().len(),
@@ -390,6 +434,7 @@ fn main() {
     c.assume("the library's view (list(), get_info(), parse, validate) is taken in-process from the same /repo tree and only on bytes the tool itself exited 0 on; library correctness is the subject of C01-C18, here only agreement between tool and library is judged");
     c.assume("a non-zero exit where success was possible is a refusal (counted in error_returns), never a violation; timeouts and deaths by signal count as non-zero exits");
     c.run_space("roundtrip", "");
+    c.run_space("manyfiles", "");
     c.run_space("subcmd", "");
     let sets = filesets(tier);
     c.extra_cov.insert(
